@@ -269,6 +269,89 @@ func guardsOf(b *ssa.BasicBlock) []guard {
 		}
 		if edgeDominates(d, 0, b) {
 			out = append(out, guard{iff, iff.Cond, true})
+			out = append(out, boolVarFacts(iff, iff.Cond, true, 0)...)
+		} else if edgeDominates(d, 1, b) {
+			out = append(out, guard{iff, iff.Cond, false})
+			out = append(out, boolVarFacts(iff, iff.Cond, false, 0)...)
+		}
+	}
+	return out
+}
+
+// boolVarFacts: what a test of a boolean variable says about the conditions it was computed from. A variable set by
+// `a && b && c` is a phi with the constant false on every edge but the last; known to be true, the value arrived over
+// that last edge, so c holds and so does everything known in the block it came from (a and b). Dually for `||` and false.
+func boolVarFacts(iff *ssa.If, cond ssa.Value, truth bool, depth int) []guard {
+	if depth > 4 {
+		return nil
+	}
+	for {
+		u, ok := cond.(*ssa.UnOp)
+		if !ok || u.Op != token.NOT {
+			break
+		}
+		cond, truth = u.X, !truth
+	}
+	phi, ok := cond.(*ssa.Phi)
+	if !ok {
+		return nil
+	}
+	if bt, isB := phi.Type().Underlying().(*types.Basic); !isB || bt.Kind() != types.Bool {
+		return nil
+	}
+	via := -1
+	for i, e := range phi.Edges {
+		if k, isK := e.(*ssa.Const); isK && k.Value != nil && k.Value.Kind() == constant.Bool && constant.BoolVal(k.Value) != truth {
+			continue // this edge carries the other value
+		}
+		if via >= 0 {
+			return nil // more than one way to this value
+		}
+		via = i
+	}
+	if via < 0 {
+		return nil
+	}
+	var out []guard
+	from := phi.Block().Preds[via]
+	if _, isK := phi.Edges[via].(*ssa.Const); !isK {
+		out = append(out, guard{iff, phi.Edges[via], truth})
+		out = append(out, boolVarFacts(iff, phi.Edges[via], truth, depth+1)...)
+	}
+	// what is known where the value came from; tests that already dominate the phi's block are known anyway
+	for _, g := range guardsOfRaw(from) {
+		if g.If.Block().Dominates(phi.Block()) && g.If.Block() != from {
+			// still useful only if it is part of the expression: keep those between the phi's dominator and the source
+			if !phi.Block().Idom().Dominates(g.If.Block()) {
+				continue
+			}
+		}
+		out = append(out, guard{iff, g.Cond, g.Truth})
+	}
+	if lastIf, isIf := from.Instrs[len(from.Instrs)-1].(*ssa.If); isIf {
+		// the source block itself branches: the edge into the phi's block
+		for i, sx := range from.Succs {
+			if sx == phi.Block() && from.Succs[1-i] != phi.Block() {
+				out = append(out, guard{iff, lastIf.Cond, i == 0})
+			}
+		}
+	}
+	return out
+}
+
+// guardsOfRaw: the branch conditions on every path to b, without what boolean variables say.
+func guardsOfRaw(b *ssa.BasicBlock) []guard {
+	var out []guard
+	for d := b.Idom(); d != nil; d = d.Idom() {
+		if len(d.Instrs) == 0 {
+			continue
+		}
+		iff, ok := d.Instrs[len(d.Instrs)-1].(*ssa.If)
+		if !ok {
+			continue
+		}
+		if edgeDominates(d, 0, b) {
+			out = append(out, guard{iff, iff.Cond, true})
 		} else if edgeDominates(d, 1, b) {
 			out = append(out, guard{iff, iff.Cond, false})
 		}
